@@ -65,6 +65,16 @@ def forms():
     out["valid_ext"] = g
     w = gen.simple_form([("text", "q1", {"label::Klingon": "tlh", "hint::Klingon": "h"}), ("image", "img", {"label::Klingon": "I"})], settings={"form_id": "fw"})
     out["valid_warn"] = w  # language without IANA subtag (warning appended *after* validator warnings) + image without max-pixels
+    # external choices used from inside a legacy loop section
+    lp = gen.simple_form([("text", "src", {"label": "S"}), ("begin loop over lst", "lp", {"label": "L"}, [("select_one_external ext", "e1", {"label": "E", "choice_filter": "grp=${src}"})])],
+                         choices={"lst": [{"name": "x1", "label": "X1"}, {"name": "x2", "label": "X2"}]}, settings={"form_id": "floop"})
+    lp.survey[1].meta["end_type"] = "end loop"
+    lp.external_choices = [{"list_name": "ext", "name": "a", "label": "A", "grp": "g1"}]
+    out["valid_ext_loop"] = lp
+    # non-ASCII text everywhere (the CLI is also run under a non-UTF-8 locale with it)
+    uni = gen.simple_form([("text", "q1", {"label": "Âge — 年齢 \U0001F600", "hint": "Ошибка"}), ("select_one l1", "s1", {"label": "Wähle"})],
+                          choices={"l1": [{"name": "a", "label": "Ä"}, {"name": "b", "label": "ב"}]}, settings={"form_id": "funi", "form_title": "Título ünï"})
+    out["valid_unicode"] = uni
     bad = gen.simple_form([("text", "q1", {"label": "Q"}), ("begin group", "g", {"label": "G"}, [("textt", "q2", {"label": "Q"})])])
     out["invalid_sheet"] = bad  # rejected by workbook_to_json
     late = gen.simple_form([("text", "q1", {"label": "Q ${nosuch}"})])
@@ -233,7 +243,7 @@ def enumerate_scripts(tier, seed):
     """Deterministic list of scripts (dicts). thorough = the full cross product of the reduced space; quick = a covering subset."""
     S = []
     outs = outcomes(tier)
-    fkeys = ["valid", "valid_ext", "valid_warn", "invalid_sheet", "invalid_late"]
+    fkeys = ["valid", "valid_ext", "valid_warn", "invalid_sheet", "invalid_late", "valid_ext_loop", "valid_unicode"]
     def add(**kw):
         kw["id"] = len(S)
         S.append(kw)
@@ -261,7 +271,7 @@ def enumerate_scripts(tier, seed):
         k = 0
         for (ok, shape) in outs:
             for mode in vm:
-                fk = ["valid", "valid_ext", "valid_warn"][k % 3]
+                fk = ["valid", "valid_ext", "valid_warn", "valid_ext_loop", "valid_unicode"][k % 5]
                 add(outcome=ok, shape=shape, mode=mode, form=fk, pre=(k % 2 == 1) and not mode.startswith("lib"), pretty=(k % 5 == 0), fp=None)
                 k += 1
         # non-validating modes and invalid forms x a few outcomes
@@ -316,7 +326,7 @@ def run_script(ctx, sc, base, FORMS, seed):
         for p in dirs.values():
             os.makedirs(p)
         form: Form = FORMS[sc["form"]]
-        fmt = ["xlsx", "md", "xls", "csv"][sc["id"] % 4] if sc["form"] != "valid_ext" else ["xlsx", "xls"][sc["id"] % 2]
+        fmt = ["xlsx", "md", "xls", "csv"][sc["id"] % 4] if not sc["form"].startswith("valid_ext") else ["xlsx", "xls"][sc["id"] % 2]
         stem = "myform"
         inpath = os.path.join(dirs["in"], f"{stem}.{fmt}")
         data = render.render(form.to_sheets(), fmt)
@@ -331,6 +341,9 @@ def run_script(ctx, sc, base, FORMS, seed):
         elif not ref.ok:
             ctx.ctr("reference_unexpected")
             ctx.obs(kind="reference_failed", form=sc["form"], fmt=fmt, err=ref.brief())
+            return
+        if form.external_choices and ref.itemsets is None:
+            V(f"itemsets:missing-although-external-choices-are-used:{sc['form']}", f"form class {sc['form']} has an external_choices sheet and a select_one_external question, but convert() returns no itemsets")
             return
         # ---- stand-in
         okind = sc["outcome"].split(":")[0]
@@ -355,6 +368,10 @@ def run_script(ctx, sc, base, FORMS, seed):
         json.dump(jsc, open(jscp, "w"))
         env = {"HOME": d, "TMPDIR": dirs["tmp"], "PYTHONPATH": os.pathsep.join([REPO, VERIF]), "PYTHONDONTWRITEBYTECODE": "1",
                "PYTHONHASHSEED": "0", "VERIF_JAVA_SCENARIO": jscp, "LANG": "C.UTF-8"}
+        if sc["form"] == "valid_unicode" and sc["id"] % 2 == 0 and not sc["mode"].startswith("lib"):
+            # a non-UTF-8 process locale: files must still be written as UTF-8
+            env.update({"LANG": "C", "LC_ALL": "C", "PYTHONUTF8": "0", "PYTHONCOERCECLOCALE": "0"})
+            ctx.ctr("ascii_locale_scripts")
         if okind == "nojava":
             env["PATH"] = dirs["nobin"]
         elif okind == "corruptjar":
